@@ -314,10 +314,17 @@ def gen_history(rng, n):
                 ops.append("sd:%d:%s:%s" % (c, hp, ("%f" % x).encode().hex()))
                 kind, val = "gd", x
             if rbp is not None and rng.random() < 0.8:
+                seti = len(ops) - 1
                 ops.append("%s:%d:%s" % (kind, c, rbp.encode("utf-8").hex()))
-                expect.append((len(ops) - 1, len(ops) - 2, kind, val))
+                expect.append((len(ops) - 1, seti, kind, val))
                 if rbp and rng.random() < 0.3:
                     used.append(rbp)
+                # "@before N" names element N afterwards, "@after N" element N+1: read it by plain index as well
+                m = re.fullmatch(r"@(before|after) (\d+)", keys[-1]) if keys else None
+                if m:
+                    canon = "/".join(rb[:-1] + ["@%d" % (int(m.group(2)) + (m.group(1) == "after"))])
+                    ops.append("%s:%d:%s" % (kind, c, canon.encode("utf-8").hex()))
+                    expect.append((len(ops) - 1, seti, kind, val))
         elif r < 0.62:
             ops.append("%s:%d:%s" % (rng.choice(["gs", "gi", "gb", "gd", "ls", "gs", "gi"]), c, hp))
         elif r < 0.70:
@@ -358,7 +365,25 @@ def run_both(ctx, rmodel, exe, lines, tag):
     return il, ml
 
 
-MUTATION_DRILLS = []  # filled in at the end of the file
+# Hand-made mutations of librime applied in a scratch worktree (/var/tmp/wt-c18, VERIF_REPO/VERIF_CACHE pointing at it),
+# `bin/check C18 quick` run against each, worktree removed afterwards.  Static record of what was run and what fired.
+MUTATION_DRILLS = [
+    {"mutation": "config_data.cc EmitScalar: '-' added to the plain-safe character class", "compiles": True,
+     "detected": True, "fired": "VIOLATION roundtrip:single-line (found_input): root scalar '---' reloads as null; also roundtrip:random-shape"},
+    {"mutation": "config_data.cc ResolveListIndex: index += 1 in the '@before' branch (off by one)", "compiles": True,
+     "detected": True, "fired": "VIOLATION get-after-set:si/ss (found_input): config_set_int(\"/@before 1\", 255) then config_get_int(\"@1\") fails"},
+    {"mutation": "config_types.cc ConfigValue::SetInt: std::to_string(static_cast<unsigned>(value))", "compiles": True,
+     "detected": True, "fired": "VIOLATION get-after-set:si (found_input): negative ints are not read back"},
+    {"mutation": "config_cow_ref.h CopyOnWrite: return the existing container instead of a copy (no copy-on-write)", "compiles": True,
+     "detected": True, "fired": "VIOLATION harness-abort:histories (found_input; config_set_item of a config into itself builds a cyclic tree, "
+                                "stack overflow under ASan) and correspondence:api-history (aliased subtrees change together)"},
+    {"mutation": "config_data.cc EmitScalar: repair reverted (literal style for every text with a line break)", "compiles": True,
+     "detected": True, "fired": "VIOLATION roundtrip:multi-line:first-line-empty-or-starting-with-blank, roundtrip:multi-line:control-character (found_input)"},
+    {"mutation": "config_types.cc ConfigValue::GetBool: boost::to_lower removed (case-sensitive)", "compiles": True,
+     "detected": True, "fired": "VIOLATION correspondence:api-history no-failing-input-found"},
+    {"mutation": "config_data.cc EmitYaml: lists in flow style from depth 4 instead of 3 (harmless layout change)", "compiles": True,
+     "detected": True, "fired": "VIOLATION correspondence:emitted-bytes no-failing-input-found (reported, as the brief prescribes for a model/code mismatch)"},
+]
 
 
 def run(ctx):
@@ -550,6 +575,7 @@ def run(ctx):
     })
 
     # ------------------------------------------------------------------ verdicts
+    real = 0       # violations reported with a concrete failing input (known findings do not count)
     seen = set()
     for idx, dom, iback, pruned in oracle_fail:
         cls, cname, t, focus = cases[idx]
@@ -566,43 +592,46 @@ def run(ctx):
         if key in seen:
             continue
         seen.add(key)
-        ctx.violation(key, "a config tree inside the property's domain does not survive SaveToStream + LoadFromStream (%s)" % fc,
-                      {"tree": lines[idx][2:], "context": cname, "scalar_hex": focus.hex() if focus is not None else None,
-                       "scalar_repr": repr(focus)[:200] if focus is not None else None,
-                       "emitted_yaml_hex": il[idx].split(" ")[0][:-1][:4000], "reloaded": iback[:2000], "expected": pruned[:2000],
-                       "how": "build the tree (syntax: N | S<hex>; | L(..) | M(<hexkey>=..)) as rime::ConfigItem objects, ConfigData::SaveToStream, "
-                              "then ConfigData::LoadFromStream of the bytes and compare",
-                       "cmd": "echo 'T %s' | %s" % (lines[idx][2:][:3000], exe)}, found_input=True)
+        real += ctx.violation(key, "a config tree inside the property's domain does not survive SaveToStream + LoadFromStream (%s)" % fc,
+                              {"tree": lines[idx][2:], "context": cname, "scalar_hex": focus.hex() if focus is not None else None,
+                               "scalar_repr": repr(focus)[:200] if focus is not None else None,
+                               "emitted_yaml_hex": il[idx].split(" ")[0][:-1][:4000], "reloaded": iback[:2000], "expected": pruned[:2000],
+                               "how": "build the tree (syntax: N | S<hex>; | L(..) | M(<hexkey>=..)) as rime::ConfigItem objects, "
+                                      "ConfigData::SaveToStream, then ConfigData::LoadFromStream of the bytes and compare",
+                               "cmd": "echo 'T %s' | %s" % (lines[idx][2:][:3000], exe)}, found_input=True)
     for hidx, si, gi, so, go, got, val in gas_fail[:3]:
-        ctx.violation("get-after-set:" + so.split(":")[0], "a getter does not return the value just set",
-                      {"history": hl[hidx], "set_call": so, "get_call": go, "got": got, "expected": str(val),
-                       "cmd": "echo '%s' | %s" % (hl[hidx], exe)}, found_input=True)
+        real += ctx.violation("get-after-set:" + so.split(":")[0], "a getter does not return the value just set",
+                              {"history": hl[hidx], "set_call": so, "get_call": go, "got": got, "expected": str(val),
+                               "ops": "ss/si/sb/sd = config_set_string/int/bool/double, gs/gi/gb/gd = config_get_*, fields c:hex(path):value",
+                               "cmd": "echo '%s' | %s" % (hl[hidx], exe)}, found_input=True)
     for hidx, j, why, x in frame_fail[:3]:
-        ctx.violation("frame:" + why.replace(" ", "-"), "an API call changed something it must not: " + why,
-                      {"history": hl[hidx], "call_index": j, "observation": x[:2000], "cmd": "echo '%s' | %s" % (hl[hidx], exe)}, found_input=True)
-    found_any = bool(oracle_fail or gas_fail or frame_fail)
-    if byte_diff and not found_any:
-        idx, a, bb = byte_diff[0]
-        ctx.violation("correspondence:emitted-bytes", "model and implementation emit different YAML for the same tree",
-                      {"tree": lines[idx][2:][:3000], "impl_hex": a[:3000], "model_hex": bb[:3000], "count": len(byte_diff)}, found_input=False)
-    if load_diff and not found_any and not byte_diff:
-        idx, a, bb = load_diff[0]
-        ctx.violation("correspondence:reloaded-tree", "model loader and yaml-cpp disagree on an emitted document",
-                      {"tree": lines[idx][2:][:3000], "doc_hex": il[idx].split(" ")[0][:3000], "impl": a[:2000], "model": bb[:2000],
-                       "count": len(load_diff)}, found_input=False)
-    if cross_diff and not found_any:
-        idx, who, h, a, bb = cross_diff[0]
-        ctx.violation("correspondence:cross-loader", "the two loaders disagree on the %s's bytes" % who,
-                      {"doc_hex": h[:3000], "impl": a[:2000], "model": bb[:2000], "count": len(cross_diff)}, found_input=False)
-    if hist_diff and not found_any:
-        hidx, j, x, y = hist_diff[0]
-        ctx.violation("correspondence:api-history", "model and implementation disagree on an API call",
-                      {"history": hl[hidx], "call_index": j, "call": hists[hidx][0][j] if j < len(hists[hidx][0]) else None,
-                       "impl": x[:2000], "model": y[:2000], "count": len(hist_diff)}, found_input=False)
-    if not proof_ok and not found_any:
-        ctx.violation("proof:Properties_C18", "a proof obligation of Properties_C18.v no longer checks",
-                      {"failed": res["failed"], "forbidden": res.get("forbidden"),
-                       "log_tail": res["log"][-3000:] + ((res["props"] or {}).get("log", "")[-3000:])}, found_input=False)
+        real += ctx.violation("frame:" + why.replace(" ", "-"), "an API call changed something it must not: " + why,
+                              {"history": hl[hidx], "call_index": j, "call": hists[hidx][0][j], "observation": x[:2000],
+                               "cmd": "echo '%s' | %s" % (hl[hidx], exe)}, found_input=True)
+    # correspondence / proof breakage without a failing input of the property itself
+    if real == 0:
+        if byte_diff:
+            idx, a, bb = byte_diff[0]
+            ctx.violation("correspondence:emitted-bytes", "model and implementation emit different YAML for the same tree",
+                          {"tree": lines[idx][2:][:3000], "impl_hex": a[:3000], "model_hex": bb[:3000], "count": len(byte_diff)}, found_input=False)
+        if load_diff and not byte_diff:
+            idx, a, bb = load_diff[0]
+            ctx.violation("correspondence:reloaded-tree", "model loader and yaml-cpp disagree on an emitted document",
+                          {"tree": lines[idx][2:][:3000], "doc_hex": il[idx].split(" ")[0][:3000], "impl": a[:2000], "model": bb[:2000],
+                           "count": len(load_diff)}, found_input=False)
+        if cross_diff:
+            idx, who, h, a, bb = cross_diff[0]
+            ctx.violation("correspondence:cross-loader", "the two loaders disagree on the %s's bytes" % who,
+                          {"doc_hex": h[:3000], "impl": a[:2000], "model": bb[:2000], "count": len(cross_diff)}, found_input=False)
+        if hist_diff:
+            hidx, j, x, y = hist_diff[0]
+            ctx.violation("correspondence:api-history", "model and implementation disagree on an API call",
+                          {"history": hl[hidx], "call_index": j, "call": hists[hidx][0][j] if j < len(hists[hidx][0]) else None,
+                           "impl": x[:2000], "model": y[:2000], "count": len(hist_diff)}, found_input=False)
+        if not proof_ok:
+            ctx.violation("proof:Properties_C18", "a proof obligation of Properties_C18.v no longer checks",
+                          {"failed": res["failed"], "forbidden": res.get("forbidden"),
+                           "log_tail": res["log"][-3000:] + ((res["props"] or {}).get("log", "")[-3000:])}, found_input=False)
 
 
 def top_level_frame(op, before, after):
